@@ -273,6 +273,7 @@ def run(facts):
     res.floor("field_writes", n_writes, 18)
     reclaim_contract(res, facts)
     reserve_promise(res, facts)
+    promise_numeric_verdict(res, facts)
     split_pair(res, facts)
     clone_never_shares(res, facts)
     return res
@@ -554,6 +555,58 @@ def reserve_promise(res, facts):
             res.bad("reserve|promise|cap writes", "-", "only %d capacity writes found below reserve / try_reclaim: the rule would pass vacuously" % total)
         return
     judged_on_views(res, facts, b0, lambda v: promise_verdicts(facts, v, b0.id))
+
+
+def promise_numeric(facts, b):
+    """reserve's promise as an entailment: on every path of the reservation helper that returns true, the state at the end of
+    the path (stores and Vec mutations applied, rules/pathstate.py) satisfies  len + additional <= cap  in the linear-inequality
+    domain, given the relations on the path's release-mode edges and the documented effects of the Vec calls met on it.
+    -> (n_paths, failing) with failing = [(path, cap expression)]"""
+    from .pathstate import StatePathBuilder
+    from .lin import State
+    n = 0
+    failing = []
+    for path in enumerate_paths(b, limit=8000):
+        sp = StatePathBuilder(b, facts, path)
+        end = (path[-1], len(b.blocks[path[-1]]["stmts"]))
+        ret = canon(sp.local(0, end))
+        if not (isinstance(ret, tuple) and ret and ret[0] == "const" and ret[1] in (1, True)):
+            continue
+        n += 1
+        fld = lambda i, nm: canon(sp.place({"l": 1, "p": ["*", {"f": i, "n": nm, "adt": HANDLE}]}, end))
+        cap_, len_ = fld(2, "cap"), fld(1, "len")
+        st = State(sp.path_relations() + sp.vec_facts())
+        if not st.entails(("le", ("bin", "Add", len_, ("param", 2)), cap_)):
+            failing.append((path, cap_))
+    return n, failing
+
+
+def promise_numeric_verdict(res, facts):
+    b0 = reserve_helper(facts)
+    if b0 is None:
+        return
+    fields = [f["name"] for a in [facts.adts.get(HANDLE)] if a for v in a["variants"] for f in v["fields"]]
+    if fields[:3] != ["ptr", "len", "cap"]:
+        return          # field order changed: the place constructor above would be wrong; the pattern rules still decide
+    n, failing = promise_numeric(facts, b0)
+    how = ""
+    if failing:
+        for ib in views(facts, b0, keep_names=("rebuild_vec", "offset_from", "vptr", "release_shared", "is_unique", "get_vec_pos", "set_vec_pos", "kind")):
+            n2, f2 = promise_numeric(facts, ib)
+            if n2 and not f2:
+                n, failing, how = n2, [], " (with helpers inlined)"
+                break
+    key = "%s|promise|every true-returning path" % b0.id
+    if n == 0:
+        res.bad(key, b0.loc(), "no path of the reservation helper returns true")
+    elif failing:
+        path, cap_ = failing[0]
+        res.bad(key, b0.loc(), "on the path bb%s the helper returns true with cap = %s, which the conditions on that path and the documented effects of the Vec "
+                               "calls on it do not make >= len + additional: reserve(n) / try_reclaim(n) can return with capacity() - len() < n" % (
+                                   "->bb".join(str(x) for x in path), fmt_expr(cap_)[:110]), path="bb" + "->bb".join(str(x) for x in path))
+    else:
+        res.ok(key, b0.loc(), "%d paths return true; on each, len + additional <= cap is entailed by the path's conditions and the effects of the Vec calls "
+                              "(state at the end of the path, linear-inequality domain)%s" % (n, how), nontrivial=True)
 
 
 def promise_verdicts(facts, b, bid, min_writes=4):
